@@ -94,9 +94,9 @@ Apply(s, e) ==
                                 !.cof = Put(@, e.r, e.s),
                                 !.cinmap = IF e.new THEN @ \cup {e.s} ELSE @ \ {e.s}]
             IN  IF e.sclosed \/ e.s \in s.cclosed THEN No(s, "C12: a request was served on a closed session")
-                ELSE IF e.new /\ held # {} THEN NoC(s2, "C13: a new session was dialled although the idle map holds a healthy session")
+                ELSE IF e.new /\ held # {} /\ ~("overlap" \in DOMAIN e /\ e.overlap) THEN NoC(s2, "C13: a new session was dialled although the idle map holds a healthy session")
                 ELSE IF ~e.new /\ e.s \notin s.cinmap THEN No(s, "C12: a request was served on a session the pool cannot hold (handed out twice)")
-                ELSE IF e.new /\ idle # {} THEN Dv(s2, "SessionNeverReturnedToPool", "client")   \* healthy idle sessions exist but none is in the map
+                ELSE IF e.new /\ idle # {} /\ ~("overlap" \in DOMAIN e /\ e.overlap) THEN Dv(s2, "SessionNeverReturnedToPool", "client")   \* healthy idle sessions exist but none is in the map
                 ELSE Ok(s2)
       [] e.ev = "cres" ->
             \* client-seq (reaper out of reach): the validator owns the idle map AND the health of every
